@@ -18,7 +18,7 @@ pub const FLOORS: &[&str] = &[
     "eval:jump_label", "eval:trap_output", "eval:stack", "pc_not_origin", "label_before_pc",
     "label_after_pc", "refused:br", "refused:rti", "refused:halt", "refused:unknown_trap",
     "malformed:missing", "malformed:surplus", "malformed:wrong_kind", "malformed:directive",
-    "malformed:two_instructions", "malformed:undefined_label", "label_out_of_reach", "eval:outside_user_space",
+    "malformed:two_instructions", "malformed:undefined_label", "label_out_of_reach", "eval:outside_user_space", "eval:label_below_origin",
 ];
 
 enum Expect {
@@ -26,6 +26,8 @@ enum Expect {
     Exec { word: u16, jump: bool, class: &'static str },
     /// Must change nothing.
     Refuse(&'static str),
+    /// the documents leave it open whether this is refused (no effect at all) or executed exactly
+    ExecOrRefuse { word: u16, class: &'static str },
 }
 
 struct EvalCmd {
@@ -300,6 +302,30 @@ fn one_case(seed: u64, i: u64) -> CaseOut {
             lines.push(format!("eval {}", text));
         }
     }
+    if rng.chance(1, 3) && orig >= 0x0100 {
+        // PC a little below the origin (reachable only by a jump), then label operands: the label's
+        // address is in reach of the 9/11-bit field, so the answer is either a refusal without any
+        // effect or exactly the label's address - never some other address
+        let target = orig - 1 - rng.below(40) as u16;
+        lines.push(format!("move r5 x{:04x}", target));
+        evals.push((lines.len(), EvalCmd { text: "jmp r5".into(), expect: Expect::Exec { word: 0xC140, jump: true, class: "eval:jump_reg" } }));
+        lines.push("eval jmp r5".into());
+        for _ in 0..3 {
+            let (name, idx) = rng.pick(&img.labels).clone();
+            let addr = orig.wrapping_add(idx as u16);
+            let d = rng.below(8) as u8;
+            let (mn, opc): (&str, u16) = *rng.pick(&[("ld", 0x2000u16), ("ldi", 0xA000), ("lea", 0xE000), ("st", 0x3000), ("sti", 0xB000)]);
+            let off = addr as i32 - target as i32;
+            let text = format!("{} r{} {}", mn, d, name);
+            let expect = if (-256..=255).contains(&off) {
+                Expect::ExecOrRefuse { word: opc | (d as u16) << 9 | (off as u16 & 0x1FF), class: "eval:label_below_origin" }
+            } else {
+                Expect::Refuse("label_out_of_reach")
+            };
+            evals.push((lines.len(), EvalCmd { text: text.clone(), expect }));
+            lines.push(format!("eval {}", text));
+        }
+    }
     lines.push("exit".into());
     let script = lines.join("\n");
     let sess = match run_session(&text, stack, &script, &[], 50_000, false) {
@@ -327,7 +353,7 @@ fn one_case(seed: u64, i: u64) -> CaseOut {
         // which line was being executed: the last one consumed
         let line = sess.obs.commands.len().saturating_sub(1);
         let cls = evals.iter().find(|(l, _)| *l == line).map(|(_, e)| match &e.expect {
-            Expect::Exec { class, .. } => *class,
+            Expect::Exec { class, .. } | Expect::ExecOrRefuse { class, .. } => *class,
             Expect::Refuse(c) => *c,
         });
         let key = match a {
@@ -352,11 +378,17 @@ fn one_case(seed: u64, i: u64) -> CaseOut {
             return out;
         };
         let out_before = &sess.obs.out_normal[..before.out_len];
-        let mut vm = vm_from(&sess, before, stack, out_before);
-        let (class, expect_pc_free): (&str, bool) = match &e.expect {
-            Expect::Refuse(c) => (*c, false),
+        let vm0 = vm_from(&sess, before, stack, out_before);
+        // reference states this command may leave behind (one, or two where the documents leave a choice)
+        let mut cands: Vec<RefVm> = Vec::new();
+        let class: &str = match &e.expect {
+            Expect::Refuse(c) => {
+                cands.push(vm0.clone());
+                c
+            }
             Expect::Exec { word, jump, class } => {
                 // the instruction is evaluated with the PC as it stands
+                let mut vm = vm0.clone();
                 match vm.exec(*word) {
                     Step::Next => {}
                     other => {
@@ -367,30 +399,40 @@ fn one_case(seed: u64, i: u64) -> CaseOut {
                 if !*jump && vm.pc != before.pc {
                     unreachable!("non-jump changed the reference PC");
                 }
-                (*class, false)
+                cands.push(vm);
+                class
+            }
+            Expect::ExecOrRefuse { word, class } => {
+                let mut vm = vm0.clone();
+                if let Step::Next = vm.exec(*word) {
+                    cands.push(vm);
+                }
+                cands.push(vm0.clone());
+                class
             }
         };
-        let _ = expect_pc_free;
         // link values written by JSR/JSRR/CALL are left open by the property
-        let link_reg = matches!(&e.expect, Expect::Exec { word, .. } if word >> 12 == 0x4);
-        let link_mem = matches!(&e.expect, Expect::Exec { word, .. } if word >> 12 == 0xD && (word >> 10) & 3 == 3);
-        let mut why: Option<String> = None;
-        for r in 0..8 {
-            if r == 7 && link_reg {
-                continue;
+        let the_word = match &e.expect {
+            Expect::Exec { word, .. } | Expect::ExecOrRefuse { word, .. } => Some(*word),
+            Expect::Refuse(_) => None,
+        };
+        let link_reg = matches!(the_word, Some(word) if word >> 12 == 0x4);
+        let link_mem = matches!(the_word, Some(word) if word >> 12 == 0xD && (word >> 10) & 3 == 3);
+        let compare = |vm: &RefVm| -> Option<String> {
+            for r in 0..8 {
+                if r == 7 && link_reg {
+                    continue;
+                }
+                if after.reg[r] != vm.reg[r] {
+                    return Some(format!("R{} = x{:04X}, expected x{:04X}", r, after.reg[r], vm.reg[r]));
+                }
             }
-            if after.reg[r] != vm.reg[r] {
-                why = Some(format!("R{} = x{:04X}, expected x{:04X}", r, after.reg[r], vm.reg[r]));
-                break;
+            if after.pc != vm.pc {
+                return Some(format!("PC x{:04X}, expected x{:04X}", after.pc, vm.pc));
             }
-        }
-        if why.is_none() && after.pc != vm.pc {
-            why = Some(format!("PC x{:04X}, expected x{:04X}", after.pc, vm.pc));
-        }
-        if why.is_none() && after.cc != vm.cc {
-            why = Some(format!("CC {:03b}, expected {:03b}", after.cc, vm.cc));
-        }
-        if why.is_none() {
+            if after.cc != vm.cc {
+                return Some(format!("CC {:03b}, expected {:03b}", after.cc, vm.cc));
+            }
             let mut exp: Vec<(u16, u16)> = crate::dbgmon::diff_mem(&vm.mem, &sess.init_mem);
             let mut got = after.mem_diff.clone();
             if link_mem {
@@ -399,20 +441,43 @@ fn one_case(seed: u64, i: u64) -> CaseOut {
                 got.retain(|(a, _)| *a != slot);
             }
             if exp != got {
-                why = Some(format!("memory changes {:04X?}, expected {:04X?}", &got[..got.len().min(4)], &exp[..exp.len().min(4)]));
+                return Some(format!("memory changes {:04X?}, expected {:04X?}", &got[..got.len().min(4)], &exp[..exp.len().min(4)]));
+            }
+            if sess.obs.out_normal[..after.out_len] != vm.out {
+                return Some(format!(
+                    "program output {:?}, expected {:?}",
+                    &sess.obs.out_normal[before.out_len..after.out_len],
+                    &vm.out[before.out_len.min(vm.out.len())..]
+                ));
+            }
+            None
+        };
+        let mut why: Option<String> = None;
+        let mut matched = None;
+        for (k, vm) in cands.iter().enumerate() {
+            match compare(vm) {
+                None => {
+                    matched = Some(k);
+                    break;
+                }
+                Some(w) => {
+                    if why.is_none() {
+                        why = Some(w);
+                    }
+                }
             }
         }
-        if why.is_none() && sess.obs.out_normal[..after.out_len] != vm.out {
-            why = Some(format!(
-                "program output {:?}, expected {:?}",
-                &sess.obs.out_normal[before.out_len..after.out_len],
-                &vm.out[before.out_len.min(vm.out.len())..]
-            ));
+        if matched.is_some() {
+            why = None;
+        }
+        if let (Expect::ExecOrRefuse { .. }, Some(k)) = (&e.expect, matched) {
+            out.class(if k == 0 && cands.len() == 2 { "open_point:executed" } else { "open_point:refused" });
         }
         if let Some(w) = why {
             let refused = matches!(e.expect, Expect::Refuse(_));
+            let open = matches!(e.expect, Expect::ExecOrRefuse { .. });
             out.violate(
-                format!("C15/{}/{}", if refused { "refused-class-had-effect" } else { "wrong-effect" }, class),
+                format!("C15/{}/{}", if refused { "refused-class-had-effect" } else if open { "neither-refused-nor-exact" } else { "wrong-effect" }, class),
                 i,
                 format!("`{}` at PC x{:04X}: {}", lines[*line], before.pc, w),
                 detail(*line, format!("state before: regs {:04X?} cc {:03b}", before.reg, before.cc)),
